@@ -142,6 +142,7 @@ class BrokerState:
                     resolved_event=serializer.serialize(waiter.resolved_event)
                     if waiter.resolved_event
                     else None,
+                    timed_out=waiter.timed_out,
                 )
                 for waiter in worker_state.collected_waiters
             ]
@@ -232,6 +233,7 @@ class BrokerState:
                         )
                         if waiter_data.resolved_event
                         else None,
+                        timed_out=waiter_data.timed_out,
                     )
                 )
 
